@@ -70,6 +70,20 @@ def run(run, binfo):
             g = variants(rng, base)
             groups.append((len(cases), len(g)))
             cases += g
+        # authorize refuses what is not registered BEFORE anything else: with an empty rule table, with credentials
+        # of the wrong type, and for check objects (which have no registration)
+        for rl, reg, rule, cr in [({}, {}, ('name', 'anything'), {'roles': []}),
+                                  ({}, {'other': None}, ('name', 'anything'), {'roles': []}),
+                                  ({'m': '@'}, {}, ('obj', '@', None), {'roles': []}),
+                                  ({'m': '@'}, {'m': None}, ('name', 'nope'), NOT_MAPPING)]:
+            base = base_case(rules=rl, default=('none',), rule=rule, creds=cr, target={}, registered=reg, authorize=True)
+            if cr == NOT_MAPPING:
+                cases.append(base)
+                groups.append((len(cases) - 1, 0))
+                continue
+            g = variants(rng, base)
+            groups.append((len(cases), len(g)))
+            cases += g
         # credential type gate
         cases.append(base_case(rules=rules, rule=('name', names[0]), creds=NOT_MAPPING))
         groups.append((len(cases) - 1, 1))
@@ -85,6 +99,14 @@ def run(run, binfo):
         elif mtr != itr:
             bad_corr.append((c, mtr, itr))
     for start, n in groups:
+        if n == 0:
+            ires = results[start][2]
+            if ires[:2] != ('exc', 'PolicyNotRegistered'):
+                run.violation('authorize-unregistered', 'authorize on an unregistered name (credentials of the wrong type) '
+                              'gave %r' % (ires,),
+                              {'kind': 'failing-input', 'suite': 'spec-c07', 'input': describe(cases[start]),
+                               'expected': 'PolicyNotRegistered', 'observed': ires})
+            continue
         if n == 1:
             ires = results[start][2]
             if ires[:2] != ('exc', 'InvalidContextObject'):
@@ -98,7 +120,7 @@ def run(run, binfo):
         def viol(key, msg, c, exp, obs):
             run.violation(key, msg, {'kind': 'failing-input', 'suite': 'spec-c07', 'input': describe(c),
                                      'expected': exp, 'observed': obs})
-        unregistered = base['authorize'] and base['rule'][1] not in base['registered']
+        unregistered = base['authorize'] and (base['rule'][0] != 'name' or base['rule'][1] not in base['registered'])
         offs = [(c, r, t) for c, r, t in grp if not c['do_raise']]
         ons = [(c, r, t) for c, r, t in grp if c['do_raise']]
         if unregistered:
